@@ -220,6 +220,7 @@ def split_merge(ctx: Ctx, rng, m, b, env, actions):
 
 def run_sequence(ctx: Ctx, rng, nbars, reqs, meta, exact_env):
     env = A.gen_env(rng, exact=exact_env)
+    env["pandas_status"] = rng.random() < 0.4       # the status row as a real backtest hands it over: a Series with a (token, column) MultiIndex
     m, b, actions = A.new_market(env, A.initial_wallet(rng, env))
     led = Ledger()
     bar = 0
